@@ -82,9 +82,10 @@ REQUIRED_TALLIES = [('delim_route', 'csv'), ('delim_route', 'tsv'), ('delim_rout
 DELIM_NAMES = {',': 'comma', '\t': 'tab', '|': 'pipe', ';': 'semicolon'}
 MEMORY_ROUTES = ['pairs0->from_items', 'pairs0->from_dict', 'pairs1->from_dict_records', 'pairs1->from_dict_records_items',
                  'items->from_items', 'items->from_dict', 'iter_array->from_items', 'iter_tuple->from_records',
-                 'iter_tuple_items->from_records_items', 'values->from_records', 'iter_tuple0->from_items']
+                 'iter_tuple_items->from_records_items', 'values->from_records', 'iter_tuple0->from_items',
+                 'iter_array1->from_records', 'iter_array_items1->from_records_items']
 ROW_WISE = ('iter_tuple->from_records', 'iter_tuple_items->from_records_items', 'pairs1->from_dict_records',
-            'pairs1->from_dict_records_items', 'values->from_records')
+            'pairs1->from_dict_records_items', 'values->from_records', 'iter_array1->from_records', 'iter_array_items1->from_records_items')
 _MEM_DTYPES_ROW = ['bool', 'int64', 'float64', '<U5', 'object', 'int8', 'float32', '<U1', 'complex128']
 _MEM_DTYPES_COL = _MEM_DTYPES_ROW + ['M8[D]', 'm8[D]', 'S5', 'uint8']
 _MEM_ROW_KINDS = ['auto', 'int', 'str', 'negint', 'hier2', 'hier3', 'float']
@@ -665,8 +666,12 @@ def _check_memory(case, ctx):
         skip = 'no_constructor_arguments'
     elif route in ('iter_tuple->from_records', 'iter_tuple_items->from_records_items') and nc == 0:
         skip = 'no_columns'
-    elif route == 'iter_tuple_items->from_records_items' and hier_i:
+    elif route in ('iter_tuple_items->from_records_items', 'iter_array_items1->from_records_items') and hier_i:
         skip = 'no_constructor_arguments'
+    elif route in ('iter_array1->from_records', 'iter_array_items1->from_records_items') and nc == 0:
+        skip = 'no_columns'
+    elif route in ('iter_array1->from_records', 'iter_array_items1->from_records_items') and len(kinds) > 1 and kinds <= set('iufc'):
+        skip = 'row_arrays_promote_numeric_kinds'  # a row of numbers of different kinds is one array of the resolved dtype
     elif route == 'values->from_records' and (nc == 0 or nr == 0):
         skip = 'empty_values'
     elif route == 'values->from_records' and len(kinds) > 1 and kinds <= set('iufc'):
@@ -712,6 +717,10 @@ def _check_memory(case, ctx):
             return cls.from_records(f.iter_tuple(axis=1, **tkw), index=index_arg, columns=columns_arg, name=name, **ikw, **ckw)
         if route == 'iter_tuple_items->from_records_items':
             return cls.from_records_items(f.iter_tuple_items(axis=1, **tkw), columns=columns_arg, name=name, **ckw)
+        if route == 'iter_array1->from_records':
+            return cls.from_records(f.iter_array(axis=1), index=index_arg, columns=columns_arg, name=name, **ikw, **ckw)
+        if route == 'iter_array_items1->from_records_items':
+            return cls.from_records_items(f.iter_array_items(axis=1), columns=columns_arg, name=name, **ckw)
         if route == 'values->from_records':
             return cls.from_records(f.values, index=index_arg, columns=columns_arg, name=name, **ikw, **ckw)
         if route == 'iter_tuple0->from_items':
@@ -753,6 +762,11 @@ def _check_memory(case, ctx):
         bad = [i for i in range(nr) if not _mem_eq(e[i], gc[i])]
         if nr:
             ctx.tally('memory_dtype_kind', f"{'row' if row_wise else 'col'}-wise:{src.dtype.kind}->{got_cols[j].dtype.kind}")
+        if (route in ('iter_array1->from_records', 'iter_array_items1->from_records_items') and nr and not bad and src.dtype.kind in 'biufcU'
+                and got_cols[j].dtype.kind != src.dtype.kind and (len(kinds) > 1 or src.dtype.kind not in 'iufc')):
+            # rows given as 1-D arrays: as for rows given as tuples, each column's type is found again from its cells ("the same kinds of types")
+            ctx.violation('memory_dtype_kind_lost', detail={'column': j, 'source_dtype': str(src.dtype), 'got_dtype': str(got_cols[j].dtype)},
+                          klass=dict(klass, part='dtype_kind', column_kind=src.dtype.kind))
         if not bad:
             continue
         only_big = all(e[i][0] == 'int' and abs(e[i][1]) > 2**53 for i in bad)
